@@ -124,11 +124,14 @@ class SmtLibSolver(Solver): # TODO this class is defined twice in pysmt. Here an
 
     def _get_value_answer(self):
         """Reads and parses an assignment from the STDOUT pipe"""
-        lst = self.parser.get_assignment_list(self.solver_stdout)
-        # The parser stops at the closing parenthesis: consume the
-        # rest of the line, that would otherwise be read as the
-        # answer to the next command
-        self.solver_stdout.readline()
+        try:
+            lst = self.parser.get_assignment_list(self.solver_stdout)
+        finally:
+            # The parser stops at the closing parenthesis, or where it
+            # gives up on an (error ...) answer: consume the rest of
+            # the line, that would otherwise be read as the answer to
+            # the next command
+            self.solver_stdout.readline()
         self._debug("Read: %s", lst)
         return lst
 
